@@ -219,14 +219,15 @@ class SpyState(State):
         super().__init__(*a, **kw)
         self.hits = []
 
-    def get(self, path, fs, info=None):
-        r = super().get(path, fs, info=info)
+    # (signature-agnostic: a refactor of the library that adds parameters must not break the harness)
+    def get(self, path, *a, **kw):
+        r = super().get(path, *a, **kw)
         if r[1] is not None:
             self.hits.append((path, r[1].name))
         return r
 
-    def get_many(self, items, fs, infos):
-        for path, meta, hi in super().get_many(items, fs, infos):
+    def get_many(self, *a, **kw):
+        for path, meta, hi in super().get_many(*a, **kw):
             if hi is not None:
                 self.hits.append((path, hi.name))
             yield path, meta, hi
